@@ -80,3 +80,6 @@ func (d *DPoS) VerifRecomputeLIB() (types.BlockNo, string, error) {
 	}
 	return fresh.libState.Lib.BlockNo, fresh.libState.Lib.BlockHash, nil
 }
+
+// VerifUpdateBPs replaces the current producer list (what a regime change does).
+func (d *DPoS) VerifUpdateBPs(ids []string) error { return d.bpc.Update(ids) }
